@@ -597,6 +597,10 @@ class Path(PathDeprecations):
             ptype = "Directory" if "d" in mode else "File"
             if "\0" in abs_path:
                 raise PathError(f"{ptype} path with a null character: {abs_path!r}")  # (os functions raise ValueError for it)
+            try:
+                os.fsencode(abs_path)
+            except UnicodeEncodeError as ex:  # (e.g. a lone surrogate: the os functions raise it as well)
+                raise PathError(f"{ptype} path that cannot be encoded: {abs_path!r}") from ex
             if "c" in mode:
                 pdir = os.path.realpath(os.path.join(abs_path, ".."))
                 if not os.path.isdir(pdir) and mode.count("c") == 2:
